@@ -37,6 +37,7 @@ func loadAll(repo string) (*Program, *Specs, error) {
 		}
 	}
 	indexStructs(p, s)
+	indexFieldReads(p)
 	followFunctionRenames(p, s)
 	return p, s, nil
 }
